@@ -135,4 +135,28 @@ theorem heard_everybody_agree (cfg : Cfg) (v : Nat → Bool) (a b : Agg) (ha : I
   unfold dealCertified enoughApprovals
   rw [approvedEntries_eq cfg _ iA, approvedEntries_eq cfg _ iB, hApp, hAbs, hAny, a1, a2, a3, b1, b2, b3, hbad, htmo, ht]
 
+/-- Having heard everybody, from the messages: every slot is filled already or the list holds a valid response of the
+    session from that participant. -/
+theorem all_heard (cfg : Cfg) (a : Agg) (l : List Resp)
+    (hvalid : ∀ r ∈ l, r.sg = true ∧ respSidOk cfg a r.sid = true ∧ r.idx < cfg.n)
+    (hcover : ∀ i < cfg.n, (a.responses.lookup i).isSome = true ∨ ∃ r ∈ l, r.idx = i) :
+    ∀ i < cfg.n, ((l.foldl (respOp cfg) a).responses.lookup i).isSome = true := by
+  intro i hi
+  rcases hcover i hi with h | ⟨r, hr, hri⟩
+  · exact foldl_filled cfg l a i h
+  · rw [← hri]; exact foldl_fills cfg l a hvalid r hr
+
+/-- `heard_everybody_agree` with "has heard everybody" discharged from the messages themselves. -/
+theorem everybody_responds_agree (cfg : Cfg) (v : Nat → Bool) (a b : Agg) (ha : Inv cfg a) (hb : Inv cfg b)
+    (hca : Consistent a v) (hcb : Consistent b v)
+    (hbad : a.badDealer = b.badDealer) (htmo : a.timeout = b.timeout) (ht : a.t = b.t)
+    (la lb : List Resp) (hla : ∀ r ∈ la, r.ap = v r.idx) (hlb : ∀ r ∈ lb, r.ap = v r.idx)
+    (hva : ∀ r ∈ la, r.sg = true ∧ respSidOk cfg a r.sid = true ∧ r.idx < cfg.n)
+    (hvb : ∀ r ∈ lb, r.sg = true ∧ respSidOk cfg b r.sid = true ∧ r.idx < cfg.n)
+    (hcova : ∀ i < cfg.n, (a.responses.lookup i).isSome = true ∨ ∃ r ∈ la, r.idx = i)
+    (hcovb : ∀ i < cfg.n, (b.responses.lookup i).isSome = true ∨ ∃ r ∈ lb, r.idx = i) :
+    dealCertified cfg (la.foldl (respOp cfg) a) = dealCertified cfg (lb.foldl (respOp cfg) b) :=
+  (heard_everybody_agree cfg v a b ha hb hca hcb hbad htmo ht la lb hla hlb
+    (all_heard cfg a la hva hcova) (all_heard cfg b lb hvb hcovb)).2
+
 end Kyber.Vss
